@@ -1127,3 +1127,75 @@ def _symbolic_dict(ctx: Context, fi: FuncInfo, expr: ast.AST, depth: int = 3) ->
                 out.append((norm_text(key), value, frozenset(conds)))
         return out
     return None
+
+
+# --------------------------------------------------------------------------- defaults by None-ness of parameters
+
+def none_case_values(fi: FuncInfo, params: list[str], target: str, stop: ast.AST) -> Optional[dict]:
+    """What `target` holds when execution reaches the statement containing `stop`, for every combination of the
+    given optional parameters being None or given.  A tiny evaluator for the defaulting prologue of a function:
+    top level `if` statements whose tests are `p is None` / `p is not None` combined with and / or / not, and
+    assignments to the parameters.  Values are returned as text with parameters standing for themselves
+    (`'data_array.dims[axis]'`, `'data_array.dims[-1]'`, `'linear_dimension'`).  None when something else touches them."""
+    import itertools
+
+    def truth(test, env):
+        if isinstance(test, ast.BoolOp):
+            vals = [truth(v, env) for v in test.values]
+            if any(v is None for v in vals):
+                return None
+            return all(vals) if isinstance(test.op, ast.And) else any(vals)
+        if isinstance(test, ast.UnaryOp) and isinstance(test.op, ast.Not):
+            v = truth(test.operand, env)
+            return None if v is None else not v
+        if isinstance(test, ast.Compare) and len(test.ops) == 1 and isinstance(test.ops[0], (ast.Is, ast.IsNot)) and is_none(test.comparators[0]) \
+                and isinstance(test.left, ast.Name) and test.left.id in env:
+            isnone = env[test.left.id] == 'None'
+            return isnone if isinstance(test.ops[0], ast.Is) else not isnone
+        return None
+
+    def subst(e, env):
+        class S(ast.NodeTransformer):
+            def visit_Name(self, node):
+                if isinstance(node.ctx, ast.Load) and node.id in env and env[node.id] != node.id:
+                    try:
+                        return ast.parse(env[node.id], mode='eval').body
+                    except SyntaxError:
+                        return node
+                return node
+        import copy
+        return norm_text(S().visit(copy.deepcopy(e)))
+
+    def run(stmts, env):
+        for st in stmts:
+            if any(x is stop for x in ast.walk(st)) and not isinstance(st, ast.If):
+                return env, True
+            if isinstance(st, ast.If):
+                t = truth(st.test, env)
+                touches = any(isinstance(n, ast.Name) and isinstance(n.ctx, ast.Store) and n.id in env for n in ast.walk(st))
+                inside = any(x is stop for x in ast.walk(st))
+                if t is None:
+                    if touches or inside:
+                        return None, False
+                    continue
+                env, done = run(st.body if t else st.orelse, env)
+                if env is None or done:
+                    return env, done
+                continue
+            if isinstance(st, ast.Assign) and len(st.targets) == 1 and isinstance(st.targets[0], ast.Name) and st.targets[0].id in env:
+                env = dict(env)
+                env[st.targets[0].id] = subst(st.value, env)
+                continue
+            if any(isinstance(n, ast.Name) and isinstance(n.ctx, ast.Store) and n.id in env for n in ast.walk(st)):
+                return None, False
+        return env, False
+    out = {}
+    for combo in itertools.product((True, False), repeat=len(params)):
+        env = {p: ('None' if isnone else p) for p, isnone in zip(params, combo)}
+        if target not in env:
+            env[target] = target
+        env, done = run(fi.node.body, env)
+        if env is None:
+            return None
+        out[tuple(combo)] = env[target]
+    return out
